@@ -5,7 +5,7 @@ import ast
 
 from ..core import (AnalysisError, alpha, call_name, dotted, is_const, kwarg, local_defs, norm, origin, parent_map,
                     walk_local)
-from ..facts import guards_of, returns_of, enclosing_loops, if_leaves
+from ..facts import default_of, guards_of, returns_of, enclosing_loops, if_leaves
 from ..rules import matcher as M
 from ..rules.label import analyse as label_analyse
 from ..rules.select import selections
@@ -345,6 +345,23 @@ def consistency(rep):
     assigns = sorted(n.lineno for n in walk_local(fi.node) if isinstance(n, ast.Assign) and any(norm(t) == name for t in n.targets))
     uses = sorted(c.lineno for c in walk_local(fi.node) if isinstance(c, ast.Call) and call_name(c) in ("find_subgraph_mappings", "PartialMatcher", "Automorphism", "AutoEst"))
     rep.ob("O11.4", "SRC", fi, bool(uses) and all(a < uses[0] for a in assigns), f"assignments at {assigns}, uses at {uses}", "the pattern graph is not re-bound between matching and pruning")
+    # which analysis prunes is the caller's choice (`automorphism`, default False): the exact orbits use fewer labels and no anchor for a connected
+    # pattern, so switching to them by any other criterion (pattern size, ...) changes which matches are merged
+    from ..rules import provenance as PV
+    pm_c = parent_map(fi.node)
+    cdefs = local_defs(fi.node)
+    for c in [c for c in walk_local(fi.node) if isinstance(c, ast.Call) and call_name(c) == "Automorphism"]:
+        gs = [(t, sn) for t, sn in guards_of(pm_c, c, fi.node) if sn]
+        flags = []
+        for t, sn in gs:
+            for conj in (t.values if isinstance(t, ast.BoolOp) and isinstance(t.op, ast.And) else [t]):
+                roots = PV.all_roots(cdefs, conj)
+                if any(norm(r) == "self.automorphism" for r in roots):
+                    flags.append((conj, roots))
+        okf = bool(flags) and all(all(norm(r) == "self.automorphism" or (isinstance(r, ast.Constant) and r.value is None) for r in roots) for _, roots in flags)
+        rep.ob("O11.4", "SRC", fi, okf if flags else None, flags[0][0] if flags else c, "the exact-orbit pruning is used exactly when the caller asked for it (`automorphism`), "
+               "not by a criterion of its own" + ("" if okf or not flags else f" (also decided by `{[norm(r)[:50] for r in flags[0][1] if norm(r) != 'self.automorphism'][0]}`)"), node=c)
+    d_auto = default_of(fi, "automorphism") if "automorphism" in fi.params else None
     dd = [c for c in walk_local(fi.node) if isinstance(c, ast.Call) and call_name(c) == "deduplicate_matches_with_anchor"]
     rep.need("SRC", len(dd), 1, "deduplicate calls in mappings")
     fdefs = local_defs(fi.node)
